@@ -17,7 +17,7 @@ import warnings
 
 from ..engine import REPO
 
-FORMATS = ["xyz", "sdf"]
+FORMATS = ["xyz", "sdf", "mol2"]
 EXT = {"xyz": (".xyz",), "sdf": (".sdf",), "mol2": (".mol2",), "pdb": (".pdb",), "cube": (".cube", ".cub"),
        "gromacs": (".gro",)}
 CLASSES = ["ValueError", "IndexError", "KeyError", "StopIteration", "TypeError", "LoadError", "OverflowError",
@@ -28,7 +28,7 @@ PER_CASE_LIMIT = 10
 # characters of the modelled domain used by the substitution mutations
 SUBST = list("x*-9. \t#_+eE,:@0") + [" ", "é", "²", "٣", "€"]
 NUMREP = ["99999999999999999999", "1e999", "-1", "0", "nan", "1.5", "1_0", "١٢", "-99999999999999999999",
-          "1e", "+.5e-3", "inf", "1000000", "3000000000"]
+          "1e", "+.5e-3", "inf", "1000000", "3000000000", "9" * 310]
 
 RULE = (
     "rdr: corpus and generated files of the formats with a Lean reader x EVERY line truncation x seeded mutations "
@@ -200,6 +200,18 @@ def _generated(fmt: str) -> list[tuple[str, str]]:
             ("gen-numbers", "3\n\n8 0.0 0.0 0.1\n1   0.7 0.0 -0.4\n  1 -0.7 0.0 -0.4  extra words\n"),
             ("gen-zero", "0\nno atoms\n"),
             ("gen-sci", " 1 \ncomment\nCl 1e0 -2.5E-1 +.5\ntrailing\n"),
+        ],
+        "mol2": [
+            ("gen-two", "# comment\n@<TRIPOS>MOLECULE\nwater\n 3 2 1 0 0\nSMALL\nUSER_CHARGES\n\n@<TRIPOS>ATOM\n"
+                        "      1 O1          0.0000    0.0000    0.1000 O.3     1  WAT1       -0.8000\n"
+                        "      2 H1          0.7000    0.0000   -0.4000 H       1  WAT1        0.4000\n"
+                        "      3 H2         -0.7000    0.0000   -0.4000 H       1  WAT1        0.4000\n"
+                        "@<TRIPOS>BOND\n     1     1     2    1\n     2     1     3   ar\n"
+                        "@<TRIPOS>MOLECULE\nsecond\n 1 0 0 0 0\nSMALL\nNO_CHARGES\n\n@<TRIPOS>ATOM\n"
+                        "      1 CL1         1.0000    2.0000    3.0000 Cl\n"),
+            ("gen-order", "@<TRIPOS>BOND\n 1 1 2 1\n@<TRIPOS>ATOM\n 1 C 0 0 0 C.3\n@<TRIPOS>MOLECULE\nm\n1 0\n"
+                          "@<TRIPOS>ATOM\n 1 C 0 0 0 C.3\n"),
+            ("gen-nobond", "@<TRIPOS>MOLECULE\nm\n 2 1\n@<TRIPOS>ATOM\n 1 Xx1 0 0 0 Du 1 R 0.0\n 2 h 0 0 1e0 H\n x\n"),
         ],
         "sdf": [
             ("gen-water", "water\n  iodata\n\n  3  2  0     0  0  0  0  0  0999 V2000\n"
